@@ -1138,6 +1138,7 @@ func (u *Unit) applyOnCall(st *State, cs *callSite) {
 		if !match {
 			continue
 		}
+		u.eng.oncallHit.Store(c, true)
 		env := u.specEnvAt(st)
 		if cs.recv != nil {
 			env["$recv"] = *cs.recv
